@@ -12,7 +12,7 @@ import (
 )
 
 func init() {
-	register("T1", "precedence table: preclevels, constant-evaluated, equals the specification's operator levels as sets (or < and < not < comparisons/in/not in < | < ^ < & < shifts < + - < * / // %), every binary operator the compiler's binop accepts is in exactly one level, and parseBinopExpr rejects chained comparisons", 12, ruleT1)
+	register("T1", "precedence table: preclevels, constant-evaluated, equals the specification's operator levels as sets (or < and < not < comparisons/in/not in < | < ^ < & < shifts < + - < * / // %), every binary operator the compiler's binop accepts is in exactly one level, and parseBinopExpr rejects chained comparisons", 10, ruleT1)
 	register("T2", "keyword tables: keywordToken[s] == T implies tokenNames[T] == s, and every keyword token constant has a map entry", 30, ruleT2)
 	register("T3", "token coverage: every punctuation token constant is produced somewhere in the scanner, and the parser's assignment-operator case lists exactly '=' and the augmented '*_EQ' tokens", 30, ruleT3)
 	register("T5", "associativity shape: the else-operand of a conditional expression is parsed by a recursive parseTest call (right associative); in parseBinopExpr the left operand is parsed at prec+1 and the right operand at opprec+1 (left associative)", 3, ruleT5)
@@ -50,24 +50,49 @@ func ruleT1(c *Ctx) {
 			}
 		}
 	}
-	if lit == nil {
-		c.anchorFail("syntax.preclevels not found")
-		return
-	}
 	var got [][]string
-	for _, el := range lit.Elts {
-		inner, ok := el.(*ast.CompositeLit)
-		if !ok {
-			continue
-		}
-		var names []string
-		for _, t := range inner.Elts {
-			if id, ok := t.(*ast.Ident); ok {
-				names = append(names, id.Name)
+	var litPos token.Pos
+	var elemPos []token.Pos
+	if lit != nil && len(lit.Elts) > 0 {
+		litPos = lit.Pos()
+		for _, el := range lit.Elts {
+			inner, ok := el.(*ast.CompositeLit)
+			if !ok {
+				continue
 			}
+			var names []string
+			for _, t := range inner.Elts {
+				if id, ok := t.(*ast.Ident); ok {
+					names = append(names, id.Name)
+				}
+			}
+			sort.Strings(names)
+			got = append(got, names)
+			elemPos = append(elemPos, el.Pos())
 		}
-		sort.Strings(names)
-		got = append(got, names)
+	} else if tbl, tpos := initTable(pk, "preclevels"); tbl != nil {
+		// filled in init(): preclevels[row.level] = append(preclevels[row.level], row.tok)
+		litPos = tpos
+		for lvl := 0; lvl < len(tbl)+2; lvl++ {
+			vs, ok := tbl[fmt.Sprint(lvl)]
+			if !ok {
+				continue
+			}
+			for len(got) <= lvl {
+				got = append(got, nil)
+				elemPos = append(elemPos, tpos)
+			}
+			for _, v := range vs {
+				if id, ok := v.(*ast.Ident); ok {
+					got[lvl] = append(got[lvl], id.Name)
+				}
+			}
+			sort.Strings(got[lvl])
+		}
+	}
+	if len(got) == 0 {
+		c.anchorFail("syntax.preclevels is neither a composite literal nor filled from a literal table in init()")
+		return
 	}
 	n := len(specLevels)
 	if len(got) > n {
@@ -77,11 +102,11 @@ func ruleT1(c *Ctx) {
 	for i := 0; i < n; i++ {
 		key := fmt.Sprintf("precedence level %d", i)
 		if i >= len(got) {
-			c.viol(key, c.P.Pos(lit.Pos()), fmt.Sprintf("level %v of the specification is missing from preclevels", specLevels[i]))
+			c.viol(key, c.P.Pos(litPos), fmt.Sprintf("level %v of the specification is missing from preclevels", specLevels[i]))
 			continue
 		}
 		if i >= len(specLevels) {
-			c.viol(key, c.P.Pos(lit.Pos()), fmt.Sprintf("preclevels has an extra level %v", got[i]))
+			c.viol(key, c.P.Pos(litPos), fmt.Sprintf("preclevels has an extra level %v", got[i]))
 			continue
 		}
 		want := append([]string{}, specLevels[i]...)
@@ -90,9 +115,9 @@ func ruleT1(c *Ctx) {
 			seen[t]++
 		}
 		if strings.Join(want, ",") == strings.Join(got[i], ",") {
-			c.ok(key, c.P.Pos(lit.Elts[i].Pos()), strings.Join(got[i], " "))
+			c.ok(key, c.P.Pos(elemPos[i]), strings.Join(got[i], " "))
 		} else {
-			c.viol(key, c.P.Pos(lit.Elts[i].Pos()), fmt.Sprintf("preclevels[%d] = %v but the specification's level %d is %v: expressions mixing these operators parse to a different tree", i, got[i], i, want))
+			c.viol(key, c.P.Pos(elemPos[i]), fmt.Sprintf("preclevels[%d] = %v but the specification's level %d is %v: expressions mixing these operators parse to a different tree", i, got[i], i, want))
 		}
 	}
 	// every operator accepted by the compiler's binop is in exactly one level
@@ -187,17 +212,37 @@ func ruleT2(c *Ctx) {
 			}
 		}
 	}
-	if mlit == nil {
-		c.anchorFail("syntax.keywordToken not found")
+	type kwEntry struct {
+		key string
+		val ast.Expr
+		pos token.Pos
+	}
+	var entries []kwEntry
+	if mlit != nil && len(mlit.Elts) > 0 {
+		for _, el := range mlit.Elts {
+			if kv, ok := el.(*ast.KeyValueExpr); ok {
+				entries = append(entries, kwEntry{constant.StringVal(pk.TypesInfo.Types[kv.Key].Value), kv.Value, kv.Pos()})
+			}
+		}
+	} else if tbl, tpos := initTable(pk, "keywordToken"); tbl != nil {
+		for k, vs := range tbl {
+			for _, v := range vs {
+				entries = append(entries, kwEntry{k, v, tpos})
+			}
+		}
+		sort.Slice(entries, func(i, j int) bool { return entries[i].key < entries[j].key })
+	}
+	if len(entries) == 0 {
+		c.anchorFail("syntax.keywordToken is neither a composite literal nor filled from a literal table in init()")
 		return
 	}
 	inMap := map[int64]bool{}
-	for _, el := range mlit.Elts {
-		kv, ok := el.(*ast.KeyValueExpr)
-		if !ok {
-			continue
-		}
-		ks := constant.StringVal(pk.TypesInfo.Types[kv.Key].Value)
+	for _, en := range entries {
+		kv := struct {
+			Value ast.Expr
+			pos   token.Pos
+		}{en.val, en.pos}
+		ks := en.key
 		tv, _ := constant.Int64Val(pk.TypesInfo.Types[kv.Value].Value)
 		inMap[tv] = true
 		key := fmt.Sprintf("keyword %q", ks)
@@ -207,9 +252,9 @@ func ruleT2(c *Ctx) {
 			got = constant.StringVal(pk.TypesInfo.Types[ne].Value)
 		}
 		if got == ks {
-			c.ok(key, c.P.Pos(kv.Pos()), "tokenNames agrees")
+			c.ok(key, c.P.Pos(kv.pos), "tokenNames agrees")
 		} else {
-			c.viol(key, c.P.Pos(kv.Pos()), fmt.Sprintf("keywordToken[%q] = %v but tokenNames of that token is %q: the word is scanned as a different keyword than it prints as", ks, tokByVal[tv], got))
+			c.viol(key, c.P.Pos(kv.pos), fmt.Sprintf("keywordToken[%q] = %v but tokenNames of that token is %q: the word is scanned as a different keyword than it prints as", ks, tokByVal[tv], got))
 		}
 	}
 	// every keyword token (AND .. last, except NOT_IN which is synthesised by the parser) has an entry
